@@ -455,6 +455,8 @@ def corpus():
     cs.append({"op": "by_gene", "tag": "corpus-empty", "in": {"rows": [], "ignore": None}})
     cs.append({"op": "squash_genes", "tag": "corpus-empty",
                "in": {"rows": [], "summary": "mean", "squash_antitarget": False, "ignore": None}})
+    from .. import c16_squashloop  # round 5b: every branch of the outer loop of squash_genes
+    cs.extend(c16_squashloop.corpus(_b))
     # empty tables and empty / single segment tables (an empty segment table is falsy: genes come from the bins)
     gmk = {"thr": frac(0.2), "thr_f": 0.2, "min_probes": 3, "skip_low": False, "hapx": False}
     cs.append({"op": "genemetrics", "tag": "corpus-empty", "in": dict(gmk, rows=[], segs=None, female=True)})
@@ -861,6 +863,8 @@ def run_impl(case):
         d = out.data
         if "malformed" not in case.get("tag", ""):
             _check_squash_extras(out, i["rows"], i.get("cols"), i["summary"])
+            from .. import c16_squashloop  # round 5b: the loop's clauses (Props/C16SquashLoop.lean) on the real objects
+            c16_squashloop.check_loop(out, arr, i.get("ignore"), i["squash_antitarget"])
         return [[str(d["chromosome"].iat[k]), int(d["start"].iat[k]), int(d["end"].iat[k]), str(d["gene"].iat[k]),
                  _opt(d["log2"].iat[k]), _opt(d["depth"].iat[k]),
                  _opt(d["weight"].iat[k]) if "weight" in d.columns else None] for k in range(len(d))]
